@@ -109,7 +109,7 @@ def gen(rng):
         'world': {'mounts': L['mounts'], 'steps': steps},
         'procs': procs,
         'dirsalt': rng.randrange(1 << 30),
-        'clock': {'start': start.strftime('%Y-%m-%dT%H:%M:%S.%f')},
+        'clock': {'start': start.strftime('%Y-%m-%dT%H:%M:%S.%f'), 'utcoffset_s': rng.choice([0, 3600, -18000, 19800, 34200, 50400, -43200])},
         'env': env, 'uid': uid,
     }
 
@@ -214,9 +214,14 @@ def check(sim, case, st):
                 exp = set(e.key() for e in bag0)
                 if exp != got:
                     bad('empty-all', '%s: left %r in the trash' % (ctx, sorted(exp - got)), kind)
-            elif r.clock:
+            else:
                 d = int(days[0])
-                first, last = min(r.clock), max(r.clock)
+                if r.clock:
+                    first, last = min(r.clock), max(r.clock)
+                else:
+                    # the command did not ask the time: the simulated local time (which then did not tick) at which it ran decides
+                    from sim import proc as P
+                    first = last = P.CLOCK.now
                 must = set(e.key() for e in bag0 if e.date is not None and OR.older_than(e.date, first, d))
                 may = set(e.key() for e in bag0 if e.date is not None and OR.older_than(e.date, last, d))
                 if may - must:
@@ -224,9 +229,6 @@ def check(sim, case, st):
                 if not (must <= got <= may):
                     bad('empty-days', '%s (now in [%s, %s]): removed %r, model: at least %r at most %r'
                         % (ctx, first, last, sorted(got), sorted(must), sorted(may)), kind)
-            elif bag0 and days:
-                # no clock reading although there were entries to judge
-                pass
         elif kind == 'trash-list':
             if removed or added:
                 bad('list-changed-bag', '%s changed the bag' % ctx, kind)
